@@ -6,6 +6,7 @@ from vlib import hexs
 from props import sess_common as sc
 from props import volfile_corr
 from props import csess_corr
+from props import csess2_corr
 
 PROP_FILES = ["Props/C04.v"]
 
@@ -48,6 +49,11 @@ def run(rep, tier, seed):
     # drop ; unmount - the extracted Model/VolSession.v next to the library, WHOLE device image compared after every call, and
     # Spec/Abs + Spec/Wf on the library's final dump against the byte array the session observed - props/csess_corr.py
     csess_corr.stream(rep, tier, vlib.Rng(seed * 104729 + 29), "C04")
+    # several files per session (C04_session2_*, C02_image_interleaved_*, C14_session2_*): 2-3 handles created in the root, calls
+    # interleaved under a scripted clock, flush / drop of single handles in random order - the extracted Model/VolSession2.v next
+    # to the library, WHOLE device and DURABLE device image compared after every call, Spec/Abs on the device after every call
+    # against the facts of the flushed files - props/csess2_corr.py
+    csess2_corr.stream(rep, tier, vlib.Rng(seed * 104729 + 31), "C04")
     confs = sessions.configs(tier)
     n = 60 if tier == "quick" else 1000
     scripts = []
